@@ -104,11 +104,11 @@ Definition mipmap_statement : Prop :=
 Lemma andb5 : forall a b c d e, a && b && c && d && e = true -> a = true /\ b = true /\ c = true /\ d = true /\ e = true.
 Proof. intros a b c d e H. repeat (apply andb_true_iff in H; destruct H as [H ?]). auto. Qed.
 
-Theorem whole_property : forall cd q canon, c15_generated_objects_ok cd q canon = true ->
+Theorem whole_property : pixel_offsets_spec -> scale_strides_spec -> forall cd q canon, c15_generated_objects_ok cd q canon = true ->
   file_round_trip_73 cd q /\ file_round_trip_pre73 cd q /\ stored_again_unchanged cd
   /\ lifecycle_statement /\ access_statement /\ mipmap_statement.
 Proof.
-  intros cd q canon H. apply andb5 in H. destruct H as (Hc & Hk & Hl & Ha & Hm).
+  intros Hoffs Hstrides cd q canon H. apply andb5 in H. destruct H as (Hc & Hk & Hl & Ha & Hm).
   unfold container_ok in Hc.
   apply andb_prop in Hc. destruct Hc as [Hc HO]. apply andb_prop in Hc. destruct Hc as [Hc HS].
   apply andb_prop in Hc. destruct Hc as [HF HG].
@@ -148,11 +148,11 @@ Proof.
       * apply (rejected_call_then_save_gen pix fbytes blank decode encode scale gen_eff_load gen_eff_rescale_from gen_chaincfg
                  HtL HtR Hchain gen_raise_tables name Hclean chain m newd scaled modf o Hin).
   - intros w h p Hp' f x y c Hc'.
-    destruct (gen_every_pixel_path_agrees Hp Hget Hset w h) as [_ A].
+    destruct (gen_every_pixel_path_agrees Hoffs Hp Hget Hset w h) as [_ A].
     destruct (A p Hp' f x y c Hc') as (A1 & A2 & A3 & A4 & A5).
     split; [exact A1|]. split; [exact A2|]. split; [apply (item_accepts_exactly getitem_reject Hget x y w h)|].
     split; [exact A3|]. split; [exact A4|]. exact A5.
   - split.
     + exact ideal_levels_halved.
-    + intros src w h x y ch Hw Hh Hx Hy. apply gen_bilinear_is_block_mean; assumption.
+    + intros src w h x y ch Hw Hh Hx Hy. apply (gen_bilinear_is_block_mean Hstrides); assumption.
 Qed.
